@@ -115,6 +115,9 @@ def run_main(argv, order='sorted', os_log=None, stdout=None, open_fn=None, remov
             raise
         except BaseException as e:
             r.exc = '%s: %s' % (type(e).__name__, e)
+            if os.environ.get('VERIF_DEBUG'):
+                import traceback
+                traceback.print_exc(file=sys.__stderr__)
             r.status = 1
             r.exit_arg = 'exception'
     finally:
